@@ -1,6 +1,7 @@
 package main
 
 import (
+	"os"
 	"fmt"
 	"go/token"
 	"go/types"
@@ -85,6 +86,89 @@ func c17r1(c *Check) {
 			}
 		}
 	})
+	// every retry re-sends a complete body: between two attempts (client.Do) the request body is re-armed
+	// (a store into Request.Body) or the request is built anew
+	sameRecv := inlineSameRecv(fn)
+	cfgBody := &PathCfg{
+		BackEdgeMax: 1,
+		Inline:      sameRecv,
+		Classify: func(in ssa.Instruction) []string {
+			if isCallNamed(in, "(*net/http.Client).Do") {
+				return []string{"do"}
+			}
+			if cc := callCommon(in); cc != nil {
+				switch calleeName(cc) {
+				case "net/http.NewRequest", "net/http.NewRequestWithContext":
+					return []string{"body:set"}
+				}
+			}
+			if st, ok := in.(*ssa.Store); ok {
+				if fa, ok := st.Addr.(*ssa.FieldAddr); ok {
+					f := fieldOfAddr(fa)
+					if f.Name() == "Body" && f.Pkg() != nil && f.Pkg().Path() == "net/http" {
+						return []string{"body:set"}
+					}
+				}
+			}
+			return nil
+		},
+		Branch: func(ifi *ssa.If, cond ssa.Value, taken bool) []string {
+			if e, errEdge, ok := errTest(cond); ok {
+				if _, isDo := callOf(e, "(*net/http.Client).Do"); isDo {
+					if taken == errEdge {
+						return []string{"do:failed"}
+					}
+					return []string{"do:ok"}
+				}
+			}
+			return nil
+		},
+	}
+	bpaths, btrunc := EnumPaths(fn, nil, cfgBody)
+	badBody, nRetry := "", 0
+	for i := range bpaths {
+		pa := &bpaths[i]
+		if os.Getenv("CRNG_DEBUG") != "" {
+			fmt.Fprintln(os.Stderr, "C17BODY", pa.String())
+		}
+		lastDo := -1
+		for j, e := range pa.Events {
+			if e.Class != "do" {
+				continue
+			}
+			if lastDo >= 0 {
+				nRetry++
+				armed := false
+				for _, e2 := range pa.Events[lastDo+1 : j] {
+					if e2.Class == "body:set" {
+						armed = true
+					}
+				}
+				if !armed && badBody == "" {
+					badBody = "a retry re-sends the request without re-arming its body (the previous attempt has consumed it, also when that attempt failed after the upload): every further attempt fails locally and the batch is never delivered: " + pa.String()
+				}
+			}
+			lastDo = j
+		}
+	}
+	if btrunc || nRetry == 0 {
+		c.Undecided("route.GrafanaNet.retryFlush re-arms the request body before every retry", c.AtFn(fn), "no path with two attempts enumerated")
+	} else {
+		c.Judge(badBody == "", "route.GrafanaNet.retryFlush re-arms the request body before every retry", c.AtFn(fn), fmt.Sprintf("%d retry transitions, each with a fresh body", nRetry), badBody)
+	}
+	// the client gives up on a request that hangs: http.Client.Timeout is the configured timeout
+	ng := c.P.Func("route", "", "NewGrafanaNet")
+	okTO := false
+	// the client literal may be built in a helper of the constructor
+	for _, g := range samePkgCallees(c.P, ng) {
+		cl := literalFields(g, "http.Client")
+		if v, ok := cl["Timeout"]; ok {
+			if _, names := fieldPath(v); len(names) > 0 && names[len(names)-1] == "Timeout" {
+				okTO = true
+			}
+		}
+	}
+	c.Judge(okTO, "route.NewGrafanaNet bounds every request with Client.Timeout", c.AtFn(ng), "http.Client{Timeout: cfg.Timeout}", "the HTTP client has no overall timeout taken from the route's timeout setting: a response that stalls (e.g. in its body) blocks the worker in flush() forever — the batch is never retried and Shutdown never returns")
 	c.Judge(bad == "", "route.GrafanaNet.retryFlush no batch-wide deadline", c.AtFn(fn), "no context with deadline/cancel is created outside the retry loop", "a context created once per batch ("+bad+") is attached to the request that is re-sent: once it expires every retry fails without reaching the endpoint and the batch is never acknowledged")
 }
 
@@ -126,23 +210,63 @@ func c17r2(c *Check) {
 	// the empty-batch early return returns the parameter unchanged: fine. Callers take the result back.
 	run := c.P.Func("route", "*GrafanaNet", "run")
 	okAll, nCalls := true, 0
-	for _, f := range withAnons(run) {
+	// kept: the value is assigned to a variable, merged, or returned to a caller that keeps it
+	var kept func(v ssa.Value, f *ssa.Function, depth int) bool
+	kept = func(v ssa.Value, f *ssa.Function, depth int) bool {
+		for _, r := range *v.Referrers() {
+			switch x := r.(type) {
+			case *ssa.Store:
+				if x.Val == v {
+					return true
+				}
+			case *ssa.Phi:
+				return true
+			case *ssa.Return:
+				if depth > 2 {
+					return false
+				}
+				idx := -1
+				for i, rv := range x.Results {
+					if rv == v {
+						idx = i
+					}
+				}
+				all, n := true, 0
+				for _, e := range c.P.CG().In[f] {
+					site, ok := e.Site.(*ssa.Call)
+					if !ok {
+						continue
+					}
+					n++
+					var res ssa.Value = site
+					if len(x.Results) > 1 {
+						res = nil
+						for _, rr := range *site.Referrers() {
+							if ex, ok := rr.(*ssa.Extract); ok && ex.Index == idx {
+								res = ex
+							}
+						}
+					}
+					if res == nil || !kept(res, e.Caller, depth+1) {
+						all = false
+					}
+				}
+				if all && n > 0 {
+					return true
+				}
+			}
+		}
+		return false
+	}
+	for _, f := range workerFuncs(c.P, run) {
+		f := f
 		allInstrs(f, func(in ssa.Instruction) {
 			call, ok := in.(*ssa.Call)
 			if !ok || calleeName(call.Common()) != "(*"+modPath+"/route.GrafanaNet).retryFlush" {
 				return
 			}
 			nCalls++
-			stored := false
-			for _, r := range *call.Referrers() {
-				if st, ok := r.(*ssa.Store); ok && st.Val == call {
-					stored = true
-				}
-				if _, ok := r.(*ssa.Phi); ok {
-					stored = true
-				}
-			}
-			if !stored {
+			if !kept(call, f, 0) {
 				// a discarded result is harmless only when the batch is never used again (the worker returns)
 				allInstrs(f, func(other ssa.Instruction) {
 					if other == in {
@@ -155,6 +279,83 @@ func c17r2(c *Check) {
 				})
 			}
 		})
+	}
+	// a helper that takes the batch and hands it back must hand back the batch (or what it appended to /
+	// flushed from it) on every return: returning nil on an error path silently discards the pending points
+	for _, f := range workerFuncs(c.P, run) {
+		if f == run || f.Parent() != nil || f.Name() == "retryFlush" {
+			continue
+		}
+		f := f
+		res := f.Signature.Results()
+		for ri := 0; ri < res.Len(); ri++ {
+			if !strings.HasSuffix(res.At(ri).Type().String(), "schema.MetricData") || !strings.HasPrefix(res.At(ri).Type().String(), "[]") {
+				continue
+			}
+			var batchPar *ssa.Parameter
+			for _, p := range f.Params {
+				if types.Identical(p.Type(), res.At(ri).Type()) {
+					batchPar = p
+				}
+			}
+			if batchPar == nil {
+				continue
+			}
+			badRet := ""
+			allInstrs(f, func(in ssa.Instruction) {
+				ret, ok := in.(*ssa.Return)
+				if !ok || ri >= len(ret.Results) {
+					return
+				}
+				// what can be returned: follow phis and local variables, stop at calls
+				var leaves []ssa.Value
+				seenL := map[ssa.Value]bool{}
+				var walkL func(v ssa.Value)
+				walkL = func(v ssa.Value) {
+					if v == nil || seenL[v] {
+						return
+					}
+					seenL[v] = true
+					switch x := v.(type) {
+					case *ssa.Phi:
+						for _, e := range x.Edges {
+							walkL(e)
+						}
+						return
+					case *ssa.UnOp:
+						if al, ok := x.X.(*ssa.Alloc); ok && x.Op == token.MUL {
+							n := 0
+							for _, r := range *al.Referrers() {
+								if st, ok := r.(*ssa.Store); ok && st.Addr == ssa.Value(al) {
+									n++
+									walkL(st.Val)
+								}
+							}
+							if n > 0 {
+								return
+							}
+						}
+					}
+					leaves = append(leaves, v)
+				}
+				walkL(ret.Results[ri])
+				for _, leaf := range leaves {
+					okLeaf := leaf == ssa.Value(batchPar) || derivedFrom(leaf, batchPar, map[ssa.Value]bool{})
+					if call, ok := leaf.(*ssa.Call); ok {
+						if b, isB := call.Call.Value.(*ssa.Builtin); isB && b.Name() == "append" {
+							okLeaf = true
+						}
+						if calleeName(call.Common()) == "(*"+modPath+"/route.GrafanaNet).retryFlush" {
+							okLeaf = true
+						}
+					}
+					if !okLeaf {
+						badRet = "returns " + describeVal(leaf) + " at " + c.At(ret)
+					}
+				}
+			})
+			c.Judge(badRet == "", FuncName(f)+" hands the batch back on every return", c.AtFn(f), "every return yields the batch parameter, an append to it or retryFlush's result", "a helper of the worker loop "+badRet+" instead of the batch it was given: the points that were pending in the batch are dropped without being sent")
+		}
 	}
 	c.Judge(okAll && nCalls >= 3, "route.GrafanaNet.run keeps retryFlush's result as the batch", c.AtFn(run), fmt.Sprintf("%d call sites assign the returned (truncated) batch back", nCalls), "a call to retryFlush discards the returned batch: the flushed points stay in the batch and are sent again with the next flush")
 }
